@@ -15,14 +15,15 @@ TagSpec gen_tag(Ctx &c, const RArray &A, bool use_units) {
     if (k == 1 && R > 1) np = 1 + r.u(R - 1); else if (k == 2) np = R + 1 + r.u(2);
     t.has_ext = r.chance(0.75);
     t.cls = np < R ? "fewer" : (np > R ? "more" : "full");
+    size_t ulen = (use_units && np >= 2 && r.chance(0.3)) ? 1 + r.u(np - 1) : np;   // units for the first entries only: the others default to their own dimension's unit
     for (size_t d = 0; d < np; d++) {
-        if (d >= R) { t.pos.push_back((double)r.range(0, 3)); t.ext.push_back((double)r.range(0, 3)); if (use_units) t.units.push_back("none"); t.factor.push_back(1.0); continue; }
+        if (d >= R) { t.pos.push_back((double)r.range(0, 3)); t.ext.push_back((double)r.range(0, 3)); if (use_units && d < ulen) t.units.push_back("none"); t.factor.push_back(1.0); continue; }
         const Axis &ax = A.ax[d]; long n = A.shape[d]; std::string c1, c2;
         long i = r.chance(0.12) ? (r.chance(0.5) ? -1 - (long)r.u(2) : n + (long)r.u(2)) : (long)r.u(n);
         long j = i + (long)r.u(std::max(1L, n - i + (r.chance(0.15) ? 2 : 0)));
         double p = gen_position(ax, n, i, r, c1), q = gen_position(ax, n, j, r, c2);
         double f = 1.0; std::string u = "none";
-        if (use_units && !ax.unit.empty()) {
+        if (use_units && !ax.unit.empty() && d < ulen) {
             static const char *pre[] = {"", "m", "k", "u"}; std::string base = ax.unit.substr(ax.unit.size() - 1);
             u = std::string(r.pick(pre)) + base; f = util::getSIScaling(u, ax.unit);
             p = p / f; q = q / f;
@@ -30,10 +31,11 @@ TagSpec gen_tag(Ctx &c, const RArray &A, bool use_units) {
         double e;
         int ek = (int)r.weighted({8, 1, 1});
         if (ek == 0) e = q - p; else if (ek == 1) e = 0.0; else e = -(std::fabs(q - p) + 0.5);
-        t.pos.push_back(p); t.ext.push_back(e); if (use_units) t.units.push_back(u); t.factor.push_back(f);
+        t.pos.push_back(p); t.ext.push_back(e); if (use_units && d < ulen) t.units.push_back(u); t.factor.push_back(f);
         if (d == 0) t.cls += "/" + c1 + (ek == 1 ? "/zero" : (ek == 2 ? "/negative" : "/" + c2));
     }
     if (!t.has_ext) t.ext.clear();
+    if (ulen < np) t.cls += "/units-prefix";
     return t;
 }
 
